@@ -1,189 +1,336 @@
-"""C05 / C07 / C08: UNBOUNDED loop contract for Session.extract_server_buf / extract_client_buf (DESIGN Appendix C.6).
+"""C05 / C07 / C06 / C08 / C01: UNBOUNDED loop contract for Session.extract_server_buf / extract_client_buf (DESIGN Appendix C.6).
 
-Input: the direction's buffer AS list.sort LEAVES IT (assumed: sort permutes and orders by key) - a list B of symbolic
-length n of segments with sequence numbers seq(j) and payloads that are the consecutive windows [off(j), off(j+1)) of
-one byte string D (so D is by construction the concatenation of the buffered payloads in buffer order), dlen(j) >= 1.
-Ghost functions: off = prefix sums of the payload lengths; bpos(q) = start of the q-th record of D (5-byte header,
-length field at +3); A(q) / Z(q) = first / last segment overlapping record q.
+Input (ghost description, every quantity symbolic, NO bound on any of them):
+  * the direction's buffer AS list.sort LEAVES IT: n >= 1 segments with sequence numbers seq(j) and non-empty payloads that
+    are the consecutive windows [off(j), off(j+1)) of one byte string D - so D is, by construction, the concatenation of the
+    buffered payloads in buffer order; the element the code sees at index 0 BEFORE the sort is an arbitrary one of them;
+  * G = index of the first adjacent pair that is not contiguous modulo 2^32 (G = n-1: the buffer is one contiguous chain);
+  * bpos(q) = start of the q-th record of D (5-byte header, 16-bit length at +3), R = number of complete records of D, so
+    D ends on a record boundary iff bpos(R) = len(D);
+  * A(q) / Z(q) = the segments holding the first / the last byte of record q.
+Every list the code builds is described by a spec function of the index (pyvc.symlist.SpecList = Dafny's seq(n, f)), and
+the definitional facts about off / bpos / G / A / Z are instantiated by hand at the indices a loop touches, so every
+verification condition is QUANTIFIER-FREE linear arithmetic + arrays (no E-matching, refutations come with models).
 
-Proved for ALL n, all contents, all record counts:
-  * a non-contiguous adjacent pair (mod 2^32) or a stream not ending on a record boundary: nothing released, buffer kept;
-  * otherwise exactly the records of frame(D) are appended, in order, record q being the window [bpos(q), bpos(q+1))
-    of D with metadata = segments A(q)..Z(q) in order (non-empty), and the buffer is emptied;
-  * both framing loops terminate (variants).
-Assumed arithmetic lemmas (each provable by induction, see lemma.* harnesses): prefix sums of positive lengths are
-monotone; every position below the total lies in exactly one window."""
-from pyvc.api import harness, eq, band, bor, bnot, implies, len_, ite, be, const
+Proved for ALL n, all payloads, all record counts (four loop invariants, two variants, postconditions on the final state):
+  * released <=> the buffer is one contiguous chain (mod 2^32) AND D ends on a record boundary;
+  * not released: the record list and the buffer are exactly as before;
+  * released: exactly the R records of frame(D) were appended, in order, after the earlier ones; record q is the window
+    [bpos(q), bpos(q+1)) of D with its header fields (TlsRecord.isserver is not constrained: nothing in tlexport reads it -
+    extract_client_buf passes True there) and metadata = the segments A(q)..Z(q) in buffer
+    order (>= 1 of them: exactly the segments whose bytes the record contains); the buffer is emptied;
+  * both framing loops terminate;
+  * the REAL sort key orders every contiguous chain spanning < 2^31 bytes in stream order whichever buffered segment is
+    taken as the base (so, with list.sort's contract, the sorted buffer IS the chain whenever the segments can form one).
+Lemmas (lemma.* harness: base case and induction step discharged by z3; the induction schema itself is applied on paper):
+prefix sums are monotone; every stream position lies in a window; a contiguous chain places segment q at seq(0)+off(q)."""
+from pyvc.api import harness, eq, band, bor, bnot, implies, ite, const
 
 SE = "tlexport.session.Session"
 TWO32 = 2 ** 32
+PROPS = ["C05", "C07", "C06", "C08", "C01"]
+FUNCS = [SE + ".extract_server_buf", SE + ".extract_client_buf", "tlexport.tlsrecord.TlsRecord.__init__"]
 
 
-@harness(["C05", "C07", "C08", "C06", "C01"], "framing.unbounded", functions=[SE + ".extract_server_buf", SE + ".extract_client_buf", "tlexport.tlsrecord.TlsRecord.__init__"],
-         cases=[("server",), ("client",)], timeout=60000)
+class World:
+    """the ghost description of one buffer (shared by the contract and the lemma harnesses)"""
+
+    def __init__(self, c):
+        self.c = c
+        self.n = c.int("n_segments", 1, None)
+        self.seq, self.dlen, self.off = c.uf("seq"), c.uf("dlen"), c.uf("off")
+        self.bpos, self.A, self.Z = c.uf("bpos"), c.uf("first_seg"), c.uf("last_seg")
+        n, off = self.n, self.off
+        self.total = off(n)
+        c.assume(off(0) == 0)
+        self.seg(0)
+        self.seg(n - 1)
+        self.mono(0, n)
+        self.D = c.bytes("stream", length=self.total)
+
+    # ---- definitional facts, instantiated by hand
+    def seg(self, j):
+        """segment j (0 <= j < n): 32-bit sequence number, non-empty payload, off = prefix sums of the payload lengths"""
+        c = self.c
+        c.assume(implies(band(0 <= j, j < self.n), band(self.dlen(j) >= 1, self.off(j + 1) == self.off(j) + self.dlen(j),
+                                                         0 <= self.seq(j), self.seq(j) < TWO32)))
+
+    def mono(self, x, y):
+        """lemma.prefix_sums_monotone at (x, y)"""
+        self.c.assume(implies(band(0 <= x, x <= y, y <= self.n), self.off(x) <= self.off(y)))
+
+    def contiguous(self, q):
+        return (self.seq(q) + self.dlen(q)) % TWO32 == self.seq(q + 1)
+
+    def reclen(self, x):
+        D = self.D
+        return D[x + 3] * 256 + D[x + 4] + 5          # 5-byte header + the 16-bit length field of the header at x
+
+    def packet(self, k):
+        from pyvc.core import bslice
+        c = self.c
+        return c.make_obj(c.const_of("tlexport.packet.Packet"), seq=self.seq(k), tls_data=bslice(self.D, self.off(k), self.off(k) + self.dlen(k)), __idx=k)
+
+
+def idx_of(p):
+    return p.attrs["__idx"]
+
+
+@harness(PROPS, "framing.unbounded", functions=FUNCS, cases=[("server",), ("client",)], timeout=60000)
 def h_unbounded(c, direction):
     if c.native:
         return
-    from pyvc.api import SymList, from_list, forall
-    from pyvc.core import BBase, SymInt, bslice, to_bytes_val, BSlice, ByteArr
-    E = c.E
-    n = c.int("n_segments", 1, None)
-    seq, dlen, off, bpos, A, Z = c.uf("seq"), c.uf("dlen"), c.uf("off"), c.uf("bpos"), c.uf("first_seg"), c.uf("last_seg")
-    total = off(n)
-    c.assume(off(0) == 0)
-    c.assume(total >= 0)
-    D = c.bytes("stream", length=total)
-    # lemma (monotone prefix sums) as a quantified hypothesis; proved by induction in lemma.prefix_sums_monotone
-    c.assume(forall2(c, lambda x, y: implies(band(0 <= x, x <= y, y <= n), off(x) <= off(y))))
-    c.assume(forall(lambda j: band(dlen(j) >= 1, off(j + 1) == off(j) + dlen(j), 0 <= seq(j), seq(j) < TWO32), 0, n))
+    from pyvc.api import SpecList
+    from pyvc.core import bslice, Unsupported
+    from pyvc.interp import LambdaVal, Frame
+    W = World(c)
+    n, seq, dlen, off, bpos, A, Z, D, total = W.n, W.seq, W.dlen, W.off, W.bpos, W.A, W.Z, W.D, W.total
+    isserver = direction == "server"
+
+    # ---- G: the first adjacent pair that is not contiguous mod 2^32 (n-1 if there is none)
+    G = c.int("first_gap", 0, None)
+    c.assume(G <= n - 1)
+    W.seg(G)
+    W.seg(G + 1)
+    c.assume(implies(G < n - 1, bnot(W.contiguous(G))))
+
+    def chain_upto(q):            # instance of  forall q < G: contiguous(q)
+        W.seg(q)
+        W.seg(q + 1)
+        c.assume(implies(band(0 <= q, q < G), W.contiguous(q)))
+
+    # ---- R: number of complete records of D; bpos(q): where record q starts
+    R = c.int("n_records", 0, None)
     c.assume(bpos(0) == 0)
 
-    def packet(vals, k):
-        return c.make_obj(c.const_of("tlexport.packet.Packet"), seq=seq(k), tls_data=bslice(D, off(k), off(k) + dlen(k)), __idx=k)
-    B = SymList("buffer", [], n, {}, project=None, inject=packet)
-    B.sorted_input = True
-    buf_attr, rec_attr = direction + "_packet_buffer", direction + "_tls_records"
+    def rec_def(q):               # instance of  forall q < R: record q lies completely inside D
+        c.assume(implies(band(0 <= q, q < R), band(bpos(q) >= 0, bpos(q) + 5 <= total, bpos(q + 1) == bpos(q) + W.reclen(bpos(q)), bpos(q + 1) <= total)))
+    rec_def(0)
+    c.assume(band(bpos(R) >= 0, bpos(R) <= total))
+    c.assume(bor(total - bpos(R) < 5, band(bpos(R + 1) == bpos(R) + W.reclen(bpos(R)), bpos(R + 1) > total)))
+    on_boundary = bpos(R) == total
+    is_chain = G == n - 1
+    complete = band(is_chain, on_boundary)
+
+    def seg_of(q):                # instance of lemma.windows_tile: the segments holding record q's first and last byte
+        c.assume(implies(band(0 <= q, q < R), band(0 <= A(q), A(q) < n, off(A(q)) <= bpos(q), bpos(q) < off(A(q) + 1),
+                                                   0 <= Z(q), Z(q) < n, off(Z(q)) < bpos(q + 1), bpos(q + 1) <= off(Z(q) + 1))))
+        W.seg(A(q))
+        W.seg(Z(q))
+        W.mono(Z(q) + 1, A(q))    # gives A(q) <= Z(q)
+
+    # ---- the lists, as spec functions of the index
+    def md_list(a, cnt):
+        return SpecList("metadata", cnt, lambda j: W.packet(a + j), lambda x, j: eq(idx_of(x), a + j), params={"first": a})
+
+    def md_is(M, a, cnt):
+        """M == [segment a, segment a+1, ..., segment a+cnt-1]"""
+        if isinstance(M, SpecList):
+            return band(M.equals_spec(cnt), bor(M.total_len == 0, M.params["first"] == a), len(M.lead) == 0)
+        if isinstance(M, list):
+            return band(eq(len(M), cnt), *[eq(idx_of(x), a + j) for j, x in enumerate(M)])
+        return False
+
+    def rec_make(q):
+        lo, hi = bpos(q), bpos(q + 1)
+        return c.make_obj(c.const_of("tlexport.tlsrecord.TlsRecord"), raw=bslice(D, lo, hi), binary=bslice(D, lo + 5, hi), record_type=D[lo],
+                          record_version=bslice(D, lo + 1, lo + 3), record_length=bslice(D, lo + 3, lo + 5), isserver=isserver,
+                          metadata=md_list(A(q), Z(q) - A(q) + 1))
+
+    def rec_match(x, q):
+        if not hasattr(x, "attrs") or any(k not in x.attrs for k in ("raw", "binary", "record_type", "record_version", "record_length", "metadata")):
+            return False
+        a = x.attrs
+        lo, hi = bpos(q), bpos(q + 1)
+        return band(eq(a["raw"], bslice(D, lo, hi)), eq(a["binary"], bslice(D, lo + 5, hi)), a["record_type"] == D[lo],
+                    eq(a["record_version"], bslice(D, lo + 1, lo + 3)), eq(a["record_length"], bslice(D, lo + 3, lo + 5)),
+                    md_is(a["metadata"], A(q), Z(q) - A(q) + 1), Z(q) - A(q) + 1 >= 1)
+
     pre = [c.opaque("earlier_record")]
+
+    def rs_is(RS, cnt):
+        """RS == pre ++ [record 0, ..., record cnt-1]"""
+        if isinstance(RS, SpecList):
+            return band(len(RS.lead) == len(pre) and all(x is y for x, y in zip(RS.lead, pre)), RS.equals_spec(cnt))
+        if isinstance(RS, list):
+            return band(len(RS) >= len(pre) and all(x is y for x, y in zip(RS, pre)), eq(len(RS) - len(pre), cnt),
+                        *[rec_match(x, j) for j, x in enumerate(RS[len(pre):])])
+        return False
+
+    def pr_match(x, q):
+        return isinstance(x, tuple) and len(x) == 3 and hasattr(x[2], "attrs") and band(eq(x[0], off(q)), eq(x[1], off(q + 1)), eq(idx_of(x[2]), q))
+
+    def pr_list(cnt):
+        return SpecList("packet_ranges", cnt, lambda q: (off(q), off(q + 1), W.packet(q)), pr_match)
+
+    def pr_is(PR, cnt):
+        if isinstance(PR, SpecList):
+            return band(PR.equals_spec(cnt), len(PR.lead) == 0)
+        if isinstance(PR, list):
+            return band(eq(len(PR), cnt), *[pr_match(x, j) for j, x in enumerate(PR)])
+        return False
+
+    # ---- the buffer; what list.sort is handed; the sort-key obligation
+    first_arrived = c.int("first_arrived", 0, None)
+    c.assume(first_arrived < n)
+    W.seg(first_arrived)
+
+    def arrival(q):
+        if isinstance(q, int) and q == 0:
+            return first_arrived
+        raise Unsupported("the unsorted buffer is read at an index other than 0")
+
+    def on_sort(I, lst, key, reverse):
+        """list.sort is assumed (permutation, non-decreasing in the key, stable).  Obligation on the REAL key: along any
+        contiguous chain spanning < 2^31 bytes the keys increase strictly in stream order, whichever buffered segment
+        supplied the base - so the sorted buffer is the chain whenever the segments can form one."""
+        i, j = c.fresh_int("i", 0, None), c.fresh_int("j", 0, None)
+        c.assume(band(i < j, j < n))
+        for q in (i, j, first_arrived):
+            W.seg(q)
+            W.mono(0, q)
+            W.mono(q + 1, n)
+        W.mono(i + 1, j)
+
+        def chainpos(q):          # lemma.chain_positions at q
+            return seq(q) == (seq(0) + off(q)) % TWO32
+        hyp = band(is_chain, total < 2 ** 31, chainpos(i), chainpos(j), chainpos(first_arrived))
+        if not isinstance(key, LambdaVal) or I.truth(reverse):
+            c.ensure("sort.by_a_key_ascending", False)
+            return
+
+        def keyval(p):
+            fr = Frame(key.frame.func, dict(key.frame.locals))
+            fr.module = key.frame.module
+            fr.locals[key.node.args.args[0].arg] = p
+            return I.eval(key.node.body, fr)
+        c.ensure("sort.key_strictly_increasing_along_a_contiguous_chain", implies(hyp, keyval(W.packet(i)) < keyval(W.packet(j))))
+    B = SpecList("buffer", n, W.packet, lambda x, q: eq(idx_of(x), q))
+    B.arrival, B.on_sort = arrival, on_sort
+
+    buf_attr, rec_attr = direction + "_packet_buffer", direction + "_tls_records"
     s = c.obj(SE, server_counter=0, client_counter=0)
     c.set(s, buf_attr, B)
     c.set(s, rec_attr, list(pre))
     qual = SE + ".extract_%s_buf" % direction
     bname = "self.%s" % buf_attr
+    gh = {"r3": 0, "r4": 0}
 
-    # ---- L1: contiguity of adjacent segments (mod 2^32)
-    def contiguous(q):
-        return (seq(q) + dlen(q)) % TWO32 == seq(q + 1)
-    c.loop(qual, "for i in range(0, len(%s) - 1)" % bname, invariant=lambda e: forall(contiguous, 0, e.it))
+    # ---- L1: contiguity of adjacent segments.  Invariant: no gap among the pairs inspected so far (it <= G)
+    def g1(phase, e):
+        if phase == "havoc":
+            chain_upto(e.it)
+            W.mono(0, e.it)
+            W.mono(e.it + 2, n)
+    c.loop(qual, "for i in range(0, len(%s) - 1)" % bname, invariant=lambda e: band(e.it <= G, B.sorted is True), ghost_step=g1)
 
-    # ---- L2: byte ranges of the segments
-    def pr_project(t):
-        return {"lo": t[0], "hi": t[1], "idx": t[2].attrs["__idx"]}
-
-    def pr_inject(vals, k):
-        return (vals["lo"], vals["hi"], packet(None, vals["idx"]))
-
-    def pr_sl(x):
-        return x if isinstance(x, SymList) else from_list(x, "packet_ranges", ["lo", "hi", "idx"], pr_project, pr_inject)
-
-    def ranges_ok(PR, upto):
-        return forall(lambda q: band(PR.field("lo", q) == off(q), PR.field("hi", q) == off(q + 1), PR.field("idx", q) == q), 0, upto)
-
+    # ---- L2: byte ranges of the segments and the concatenated stream
     def inv2(e):
-        PR = pr_sl(e.packet_ranges)
-        return band(e.total_packet_len == off(e.it), eq(e.packet_data, bslice(D, 0, off(e.it))), PR.length == e.it, ranges_ok(PR, e.it), e.index == 0)
-
-    def hv_data(cur):
-        cur.val = None
-        return cur
-    state = {}
+        return band(e.total_packet_len == off(e.it), eq(e.packet_data, bslice(D, 0, off(e.it))), pr_is(e.packet_ranges, e.it), e.index == 0)
 
     def g2(phase, e):
         if phase == "havoc":
-            e.packet_data.val = bslice(D, 0, off(e.it))
-    c.loop(qual, "for i in %s" % bname, invariant=inv2,
-           havoc={"packet_ranges": lambda cur: pr_sl(cur).fresh("packet_ranges"), "packet_data": lambda cur: cur}, ghost_step=g2)
+            W.seg(e.it)
+            W.mono(0, e.it)
+            W.mono(e.it + 1, n)
+            e.packet_data.val = bslice(D, 0, off(e.it))      # the invariant pins the value; give it its structural form
+    c.loop(qual, "for i in %s" % bname, invariant=inv2, havoc={"packet_ranges": lambda cur: pr_list(c.fresh_int("n_ranges", 0, None)), "packet_data": lambda cur: cur},
+           ghost_step=g2)
 
-    # ---- L3: scan the record boundaries
-    def rec_len_at(x):
-        return D[x + 3] * 256 + D[x + 4] + 5          # 16-bit length field of the record header at x, plus the header
-
+    # ---- L3: scan the record boundaries.  index = bpos(r3); r3 <= R, or one step beyond the end of D
     def inv3(e):
-        r = e.ghost("r3")
-        return band(e.index == bpos(r), r >= 0, e.total_packet_len == total, eq(e.packet_data, D),
-                    forall(lambda q: band(bpos(q) >= 0, bpos(q) <= e.index), 0, r + 1),
-                    forall(lambda q: band(bpos(q) + 5 <= total, bpos(q + 1) == bpos(q) + rec_len_at(bpos(q))), 0, r))
+        r = gh["r3"]
+        return band(r >= 0, e.index == bpos(r), e.total_packet_len == total, eq(e.packet_data, D), pr_is(e.packet_ranges, n),
+                    bor(r <= R, band(r == R + 1, total - bpos(R) >= 5, bpos(R + 1) > total)))
 
     def g3(phase, e):
-        r = e.ghost("r3")
         if phase == "havoc":
+            gh["r3"] = c.fresh_int("r3", 0, None)
+            rec_def(gh["r3"])
             e.packet_data.val = D
-            c.assume(implies(bpos(r) + 5 <= total, bpos(r + 1) == bpos(r) + rec_len_at(bpos(r))))     # definition of bpos unfolded at r
         elif phase == "step":
-            e.set_ghost("r3", r + 1)
-    c.loop(qual, "while True", invariant=inv3, decreases=lambda e: e.total_packet_len - e.index + 70000,
-           havoc={"ghost:r3": lambda cur: c.fresh_int("r3", 0, None), "packet_data": lambda cur: cur}, ghost_step=g3)
+            gh["r3"] = gh["r3"] + 1
+    c.loop(qual, "while True", invariant=inv3, decreases=lambda e: e.total_packet_len - e.index + 70000, havoc={"packet_data": lambda cur: cur}, ghost_step=g3)
 
-    # ---- L4 / L5: release the records with their metadata
-    len0 = len(pre)
-
-    def md_sl(x):
-        return x if isinstance(x, SymList) else from_list(x, "metadata", ["idx"], lambda p: {"idx": p.attrs["__idx"]}, lambda vals, k: packet(None, vals["idx"]))
-
-    def rec_project(r):
-        raw = to_bytes_val(r.attrs["raw"])
-        w = (raw.start, raw.length) if isinstance(raw, BSlice) and raw.base is D else ((0, raw.length) if raw is D else (-1, -1))
-        M = md_sl(r.attrs["metadata"])
-        return {"start": w[0], "len": w[1], "m_first": M.field("idx", 0), "m_count": M.length, "m_ok": ite(md_consecutive(M), 1, 0)}
-
-    def md_consecutive(M):
-        return forall(lambda q: M.field("idx", q) == M.field("idx", 0) + q, 0, M.length)
-
-    def rs_sl(x):
-        return x if isinstance(x, SymList) else from_list(x, "records", ["start", "len", "m_first", "m_count", "m_ok"],
-                                                          lambda r: rec_project(r) if hasattr(r, "attrs") and "raw" in r.attrs else {"start": -2, "len": -2, "m_first": -2, "m_count": -2, "m_ok": -2})
-
-    def released(RS, upto):
-        return forall(lambda q: band(RS.field("start", len0 + q) == bpos(q), RS.field("len", len0 + q) == bpos(q + 1) - bpos(q),
-                                     RS.field("m_first", len0 + q) == A(q), RS.field("m_count", len0 + q) == Z(q) - A(q) + 1, RS.field("m_count", len0 + q) >= 1,
-                                     RS.field("m_ok", len0 + q) == 1), 0, upto)
-
-    def seg_of(q):
-        """definition of A(q), Z(q): the segments holding the first and the last byte of record q (they exist because the
-        windows tile [0, total) - lemma)"""
-        return band(0 <= A(q), A(q) <= Z(q), Z(q) < n, off(A(q)) <= bpos(q), bpos(q) < off(A(q) + 1),
-                    off(Z(q)) < bpos(q + 1), bpos(q + 1) <= off(Z(q) + 1))
-
+    # ---- L4: release record r4 with its metadata
     def inv4(e):
-        r4, R = e.ghost("r4"), e.ghost("r3")
-        RS = rs_sl(e.self.attrs[rec_attr])
-        return band(e.index == bpos(r4), 0 <= r4, r4 <= R, bpos(R) == total, e.total_packet_len == total, eq(e.packet_data, D),
-                    RS.length == len0 + r4, released(RS, r4), ranges_ok(pr_sl(e.packet_ranges), n), pr_sl(e.packet_ranges).length == n)
+        r4 = gh["r4"]
+        return band(0 <= r4, r4 <= R, e.index == bpos(r4), on_boundary, e.total_packet_len == total, eq(e.packet_data, D),
+                    pr_is(e.packet_ranges, n), rs_is(e.self.attrs[rec_attr], r4))
 
     def g4(phase, e):
-        r4 = e.ghost("r4")
         if phase == "havoc":
+            gh["r4"] = c.fresh_int("r4", 0, None)
+            rec_def(gh["r4"])
+            seg_of(gh["r4"])
             e.packet_data.val = D
-            R = e.ghost("r3")
-            c.assume(implies(r4 < R, seg_of(r4)))
-            # instances at r4 of what the boundary scan established for every q < R (manual instantiation)
-            c.assume(implies(r4 < R, band(bpos(r4) + 5 <= total, bpos(r4 + 1) == bpos(r4) + rec_len_at(bpos(r4)), bpos(r4 + 1) <= total, bpos(r4) >= 0)))
         elif phase == "step":
-            e.set_ghost("r4", r4 + 1)
-        elif phase == "exit":
-            R = e.ghost("r3")
-            RS = rs_sl(e.self.attrs[rec_attr])
-            c.ensure("complete.all_records_of_frame(D)_released_in_order", band(r4 == R, RS.length == len0 + R, released(RS, R)))
-            c.cover("complete.exit")
-    c.loop(qual, "while index != total_packet_len", invariant=inv4, decreases=lambda e: e.ghost("r3") - e.ghost("r4"),
-           havoc={"ghost:r4": lambda cur: c.fresh_int("r4", 0, None), "self." + rec_attr: lambda cur: rs_sl(cur).fresh("records"),
+            gh["r4"] = gh["r4"] + 1
+    c.loop(qual, "while index != total_packet_len", invariant=inv4, decreases=lambda e: R - gh["r4"],
+           havoc={"self." + rec_attr: lambda cur: SpecList("records", c.fresh_int("n_released", 0, None), rec_make, rec_match, lead=pre),
                   "packet_data": lambda cur: cur, "metadata": lambda cur: None, "binary": lambda cur: None, "tls_record": lambda cur: None},
            ghost_step=g4)
 
+    # ---- L5: metadata of record r4 = the segments A..Z whose windows meet the record's window
     def inv5(e):
-        r4 = e.ghost("r4")
-        M = md_sl(e.metadata)
-        a, z = A(r4), Z(r4)
-        cnt = ite(e.it <= a, 0, ite(e.it > z, z - a + 1, e.it - a))
-        return band(M.length == cnt, forall(lambda q: M.field("idx", q) == a + q, 0, M.length))
-    c.loop(qual, "for packet_range in packet_ranges", invariant=inv5, havoc={"metadata": lambda cur: md_sl(cur).fresh("metadata")})
+        a, z = A(gh["r4"]), Z(gh["r4"])
+        return md_is(e.metadata, a, ite(e.it <= a, 0, ite(e.it > z, z - a + 1, e.it - a)))
+
+    def g5(phase, e):
+        if phase == "havoc":
+            a, z, it = A(gh["r4"]), Z(gh["r4"]), e.it
+            W.seg(it)
+            for x, y in ((it + 1, a), (a + 1, it + 1), (it, z), (z + 1, it)):
+                W.mono(x, y)
+    c.loop(qual, "for packet_range in packet_ranges", invariant=inv5, havoc={"metadata": lambda cur: md_list(A(gh["r4"]), c.fresh_int("n_md", 0, None))}, ghost_step=g5)
 
     out = c.method(s, "extract_%s_buf" % direction)
     c.ensure("no_raise", out.exc is None, kind="raises")
     if out.exc is not None:
         return
     recs, buf = c.get(s, rec_attr), c.get(s, buf_attr)
-    if not isinstance(recs, SymList):
-        # nothing was released on this path
-        c.ensure("incomplete.no_record_released", len(recs) == len0 and recs[0] is pre[0])
-        c.ensure("incomplete.buffer_kept", buf is B and not getattr(B, "cleared", False))
-        c.cover("incomplete")
+    c.ensure("buffer.sorted_before_use", B.sorted is True)
+    released = not (isinstance(recs, list) and len(recs) == len(pre) and all(x is y for x, y in zip(recs, pre)))
+    if not released:
+        c.ensure("released_iff_contiguous_chain_ending_on_a_record_boundary", bnot(complete))
+        c.ensure("incomplete.buffer_kept", buf is B and not B.cleared and not B.tail and c.prove(B.count == n))
+        c.cover("incomplete.gap" if c.truth_fork(bnot(is_chain)) else "incomplete.partial_record")
         return
+    c.ensure("released_iff_contiguous_chain_ending_on_a_record_boundary", complete)
+    c.ensure("complete.exactly_the_records_of_frame(D)_appended_in_order", rs_is(recs, R))
+    c.ensure("complete.buffer_emptied", buf is B and B.cleared and not B.tail and not B.lead and c.prove(B.count == 0))
     c.cover("complete")
-    c.ensure("complete.buffer_emptied", getattr(B, "cleared", False) is True)
 
 
-def forall2(c, fn):
-    from pyvc import core
-    z3 = core.z3
-    x, y = core.CUR.fresh_int("x"), core.CUR.fresh_int("y")
-    return core.mk_bool(z3.ForAll([x, y], core.TB(fn(core.SymInt(x), core.SymInt(y)))))
+h_unbounded.must_cover = ["complete", "incomplete.gap", "incomplete.partial_record"]
+
+
+@harness(PROPS, "framing.lemmas", functions=[], cases=[("prefix_sums_monotone",), ("windows_tile",), ("chain_positions",)])
+def h_lemmas(c, which):
+    """the three arithmetic lemmas the loop contract instantiates, each by induction: z3 discharges base case and step"""
+    if c.native:
+        return
+    n = c.int("n_segments", 1, None)
+    seq, dlen, off = c.uf("seq"), c.uf("dlen"), c.uf("off")
+    c.assume(off(0) == 0)
+    k = c.int("k", 0, None)            # the induction variable: the statement is assumed at k and shown at k+1
+    c.assume(k < n)
+    c.assume(band(dlen(k) >= 1, off(k + 1) == off(k) + dlen(k), 0 <= seq(k), seq(k) < TWO32, 0 <= seq(0), seq(0) < TWO32))
+    if which == "prefix_sums_monotone":
+        x = c.int("x", 0, None)
+        c.ensure("lemma.prefix_sums_monotone.base", off(x) <= off(x))
+        c.ensure("lemma.prefix_sums_monotone.step", implies(band(x <= k, off(x) <= off(k)), off(x) <= off(k + 1)))
+    elif which == "windows_tile":
+        p, w = c.int("position", 0, None), c.int("witness_at_k")
+        ih = implies(p < off(k), band(0 <= w, w < k, off(w) <= p, p < off(w + 1)))
+        w2 = ite(p < off(k), w, k)
+        c.ensure("lemma.windows_tile.base", bnot(p < off(0)))
+        c.ensure("lemma.windows_tile.step", implies(band(ih, p < off(k + 1)), band(0 <= w2, w2 < k + 1, off(w2) <= p, p < off(w2 + 1))))
+    else:
+        pos = lambda q: seq(q) == (seq(0) + off(q)) % TWO32
+        c.ensure("lemma.chain_positions.base", pos(0))
+        c.ensure("lemma.chain_positions.step", implies(band(pos(k), (seq(k) + dlen(k)) % TWO32 == seq(k + 1)), pos(k + 1)))
+    c.cover("lemma")
+
+
+h_lemmas.must_cover = ["lemma"]
